@@ -1194,7 +1194,14 @@ func (c *Context) Exp(d, x *Decimal) (Condition, error) {
 		return 0, fmt.Errorf("r.Float64: %w", err)
 	}
 	pf := float64(p)
-	nf := math.Ceil((1.435*pf - 1.182) / math.Log10(pf/rf))
+	// lg = log10(p/r). A float64 cannot hold an r below 1E-308 (it is
+	// denormal or 0 then, and the series would get no term at all): the
+	// decimal exponent of r gives a bound of its logarithm instead.
+	lg := math.Log10(pf / rf)
+	if rf < 1e-300 {
+		lg = math.Log10(pf) - float64(int64(ra.Exponent)+ra.NumDigits())
+	}
+	nf := math.Ceil((1.435*pf - 1.182) / lg)
 	if nf > 1000 || math.IsNaN(nf) {
 		return 0, errors.New("too many iterations")
 	}
